@@ -37,7 +37,7 @@ def with_layout(torch, x, layout):
 class C14(Prop):
     id = 'C14'
     title = 'Triangular packing of symmetric matrices is lossless'
-    rule = ('Exhaustive part ("pack"): every n in 1..256 plus 13 larger sizes up to 1025 and n=5793, whose packed triangle exceeds 2^24 entries (quick) / 1..1536 plus 8 sizes up to 8193 (thorough; above 2048 float32 contiguous only) x dtypes {float64,float32,bfloat16,float16} x layouts '
+    rule = ('Exhaustive part ("pack"): every n in 1..256 plus 13 larger sizes up to 1025 and n=5793, whose packed triangle exceeds 2^24 entries (quick) / 1..1536 plus 8 sizes up to 8193 (thorough; above 2048 float32 contiguous only) x dtypes {float64,float32,bfloat16,float16} x layouts (each size is preceded by two unpack calls with a packed vector of the wrong length, which may fail but must not affect the valid calls) '
             '{contiguous, transposed (column-major) view, strided slice of a larger matrix} with position-revealing symmetric contents; '
             'fill_triu(shape, get_triu(x)) == x bit-exactly, get_triu has n(n+1)/2 elements and (n <= 48) equals the row-major upper triangle '
             'from a Python double loop; the input is left unmodified. Communication part ("comm"): W in {2,3}, n in 1..24, dtype, schedule '
@@ -101,6 +101,14 @@ class C14(Prop):
         inner = 0
         # very large matrices (packed triangle beyond 2^24 entries, where float32 index arithmetic stops being exact): one dtype, one layout
         dtypes, layouts = (DTYPES, LAYOUTS) if n <= 2048 else (['float32'], LAYOUTS[:1])
+        if n <= 1025:
+            # calls that cannot succeed (packed vector of the wrong length, before the first valid call for this shape in the process)
+            # may raise whatever they like, but must not spoil the valid calls that follow
+            for wrong in (n * (n + 1) // 2 + 1, max(0, n * (n + 1) // 2 - 1)):
+                try:
+                    fill_triu((n, n), torch.zeros(wrong))
+                except Exception:  # noqa: BLE001
+                    pass
         for dn in dtypes:
             dtype = getattr(torch, dn)
             base = sym_matrix(torch, n, dtype)
